@@ -12,7 +12,7 @@ from ..shims import import_dclab
 
 PID = "C14"
 CFG = ("INIT MCInit\nNEXT Next\nCONSTRAINT Emit\nINVARIANT "
-       "NoLocalBelowRemote\nCONSTANTS\n K = {k}\n Rids <- {rids}\n"
+       "NoLocalBelowRemote\nCONSTANTS\n K = {k}\n RootRid = \"{root}\"\n Rids <- {rids}\n"
        " EdgeKinds <- {kinds}\n SelfLoops = {sl}\n RemoteToo = {rt}\n"
        "CHECK_DEADLOCK FALSE\n")
 FEAT = {1: "deform", 2: "area_um", 3: "bright_avg"}
@@ -36,7 +36,13 @@ def build(case, d, url_of):
     for u in range(1, k + 1):
         meta = {s: dict(v) for s, v in gen.META.items()
                 if s != "fluorescence"}
-        meta["experiment"]["run identifier"] = RID[case["rid"][u - 1]]
+        if case["rid"][u - 1] == "none":
+            # no identifier at all (the fall-back needs date, time and the
+            # set-up identifier)
+            meta["experiment"].pop("run identifier", None)
+            meta["setup"].pop("identifier", None)
+        else:
+            meta["experiment"]["run identifier"] = RID[case["rid"][u - 1]]
         with RTDCWriter(paths[u], mode="reset") as hw:
             hw.store_metadata(meta)
             hw.store_feature(FEAT[u], gen.scalar(FEAT[u], range(1, N + 1)))
@@ -111,7 +117,7 @@ def _graph(job):
         if offered is not None:
             want = sorted(case["offered"])
             extra = sorted(set(offered) - set(want))
-            missing = sorted(set(want) - set(offered))
+            missing = sorted(set(case.get("must", want)) - set(offered))
             kinds = sorted({e for row in case["edge"] for e in row} - {"none"})
             if extra:
                 out.append(("features of a basin that must not be followed "
@@ -168,6 +174,15 @@ def main(tier, seed, replay=None):
                  ("identifier relations K=3", dict(
                      k=3, kinds="LocalKinds", sl="FALSE", rt="FALSE",
                      rids="FiveRids"), 40 if q else 2),
+                 ("missing identifiers K=2", dict(
+                     k=2, kinds="LocalKinds", sl="FALSE", rt="FALSE",
+                     rids="NoneRids"), 1),
+                 ("missing identifiers K=3", dict(
+                     k=3, kinds="LocalKinds", sl="FALSE", rt="FALSE",
+                     rids="NoneRids"), 12 if q else 1),
+                 ("missing root identifier K=2", dict(
+                     k=2, kinds="LocalKinds", sl="FALSE", rt="FALSE",
+                     rids="NoneRids", root="none"), 1),
                  ("local graphs K=3", dict(k=3, kinds="LocalKinds",
                                            sl="FALSE", rt="FALSE"),
                   6 if q else 1),
@@ -180,6 +195,7 @@ def main(tier, seed, replay=None):
                   400 if q else 40)]
         for name, kw, samp in plans:
             kw.setdefault("rids", "ThreeRids")
+            kw.setdefault("root", "ax")
             res = tlc.run("MC_BasinGraph", CFG.format(**kw), workers=8,
                           timeout=3000)
             if not res.ok:
